@@ -91,9 +91,18 @@ func (w *concWorker) step(i int) uint64 {
 		var doc []byte
 		switch op.kind {
 		case opParseSmall:
-			doc = GenDoc(c, DocSpec{Family: FamMixed, Target: 20 + c.Intn("sz", 400), WS: c.Pick("ws", 4, 2, 1), MaxDepth: 4, StrMax: 60}).B
+			if c.Intn("longtail", 3) == 0 {
+				// a long string ending right before the end of the message (the parser's padded-copy path)
+				doc = GenDoc(c, DocSpec{Family: FamHugeString, Target: 450 + c.Intn("tailsz", 3000), WS: 0}).B
+			} else {
+				doc = GenDoc(c, DocSpec{Family: FamMixed, Target: 20 + c.Intn("sz", 400), WS: c.Pick("ws", 4, 2, 1), MaxDepth: 4, StrMax: 60}).B
+			}
 		case opParseLarge:
-			doc = GenDoc(c, DocSpec{Family: pipeFams[c.Intn("fam", len(pipeFams))], Target: 9000 + c.Intn("lsz", 50000), WS: c.Pick("ws", 4, 2, 1)}).B
+			if c.Intn("longtail", 4) == 0 {
+				doc = GenDoc(c, DocSpec{Family: FamHugeString, Target: 9000 + c.Intn("tailsz", 30000), WS: 0}).B
+			} else {
+				doc = GenDoc(c, DocSpec{Family: pipeFams[c.Intn("fam", len(pipeFams))], Target: 9000 + c.Intn("lsz", 50000), WS: c.Pick("ws", 4, 2, 1)}).B
+			}
 		case opParseND:
 			var buf bytes.Buffer
 			for l := 0; l < 1+c.Intn("lines", 4); l++ {
